@@ -223,7 +223,9 @@ def tlc_trace(spec, cfg, tracefile, parts=NCPU, timeout=900, heap="3g", env=None
                     else:
                         notes.append(fields)
                 if not complete:
-                    raise Inconclusive("trace run of %s did not consume its chunk (first line %d):\n%s" % (spec, first, out[-3000:]))
+                    errs = [m.start() for m in re.finditer(r"^Error:", out, re.M)]
+                    msg = "\n".join(out[e:e + 700] for e in errs[:3]) or out[-3000:]
+                    raise Inconclusive("trace run of %s did not consume its chunk (first line %d):\n%s" % (spec, first, msg))
         viol = sorted(set(viol), key=lambda v: (v[1], v[0]))
         return {"lines": total, "viol": viol, "drift": sorted(set((k, tuple(r)) for k, r in drift)), "wall_s": time.time() - t0, "notes": notes}
     finally:
@@ -236,6 +238,31 @@ def read_line(path, lineno):
             if i == lineno:
                 return json.loads(l)
     return None
+
+
+def read_context(path, lineno, before=40):
+    """The failing line and, for multi-line traces, the lines of the same trace leading up to it (bounded)."""
+    ctx = []
+    with open(path, "rb") as f:
+        for i, l in enumerate(f, 1):
+            if i > lineno:
+                break
+            if i >= lineno - before:
+                ctx.append(l)
+    out = []
+    for l in ctx:
+        try:
+            out.append(json.loads(l))
+        except Exception:
+            pass
+    if not out:
+        return {}
+    target = out[-1]
+    if "from" in target:            # single-step transition records (seat manager / gate): the line is the whole case
+        return {"line": target}
+    same = [x for x in out if x.get("tr") == target.get("tr")]
+    slim = [{k: x.get(k) for k in ("n", "ev", "a", "res")} for x in same[:-1]]
+    return {"line": target, "preceding": slim}
 
 
 class Findings:
@@ -273,13 +300,16 @@ class Check:
                                    "completed": not res.get("timed_out", False)})
 
     def violation(self, clause, payload):
+        """payload may be a callable producing the replay case (evaluated only for the first few violations)."""
         n = len(self.violations) + 1
-        path = os.path.join(OUT, "replay", "%s-%s-%d.json" % (self.prop, self.tier, n))
-        json.dump({"property": self.prop, "clause": clause, "case": payload}, open(path, "w"), indent=1)
-        self.violations.append((clause, path))
-        if n <= 20:
+        path = os.path.join(OUT, "replay", "%s-%s-%d.json" % (self.prop, self.tier, min(n, 13)))
+        if n <= 12:
+            if callable(payload):
+                payload = payload()
+            json.dump({"property": self.prop, "clause": clause, "case": payload}, open(path, "w"), indent=1)
             print("VIOLATION property=%s replay=%s" % (self.prop, path), flush=True)
             log("  clause %s" % clause)
+        self.violations.append((clause, path))
 
     def known_finding(self, tag, what):
         self.known[tag] = self.known.get(tag, 0) + 1
@@ -295,7 +325,8 @@ class Check:
             if tag and self.findings.is_open(tag, self.prop):
                 self.known_finding(tag, self.findings.open[tag].get("what", ""))
             else:
-                self.violation(clause, {"source": what, "trace_line": lineno, "tag": tag, "line": read_line(tracefile, lineno)})
+                self.violation(clause, lambda lineno=lineno, tag=tag: {"source": what, "trace_line": lineno, "tag": tag,
+                                                                           "context": read_context(tracefile, lineno)})
 
     def finish(self, extra=None):
         cov = self.cov
